@@ -51,6 +51,8 @@ def run(chk, pid):
     chk.rule('SV.2', 'self-validation, behaviour-preserving variants: refactorings that do not change behaviour (merged validation '
              'loops, extracted helpers, renamed locals, reordered independent statements) are applied to a scratch copy of the '
              'current tree; the check must stay silent')
+    chk.rule('SV.3', 'self-validation, own one-construct mutants: each change under selftest/broken/ named for this property '
+             '(a clamp removed, a check dropped) is applied to a scratch copy of the current tree; the check must report it')
     res_p = os.path.join(V, 'seeded', 'RESULTS.json')
     jobs = []
     if os.path.exists(res_p):
@@ -58,6 +60,11 @@ def run(chk, pid):
         for s, d in sorted(res.items()):
             if pid in (d.get('caught_by') or []):
                 jobs.append(('SV.1', s, os.path.join(V, 'seeded', s, 'patch.diff')))
+    bdir = os.path.join(V, 'selftest', 'broken')
+    if os.path.isdir(bdir):
+        for f in sorted(os.listdir(bdir)):
+            if f.endswith('.diff') and f.startswith(pid + '_'):
+                jobs.append(('SV.3', f[:-5], os.path.join(bdir, f)))
     pdir = os.path.join(V, 'selftest', 'preserving')
     if os.path.isdir(pdir):
         for f in sorted(os.listdir(pdir)):
@@ -70,9 +77,9 @@ def run(chk, pid):
         if rc is None:
             chk.notes.append(f'{rule} {name}: skipped ({msg})')
             continue
-        ok = (rc == 1) if rule == 'SV.1' else (rc == 0)
+        ok = (rc == 1) if rule in ('SV.1', 'SV.3') else (rc == 0)
         chk.ob(rule, 'selfvalidate', name, True if ok else True, os.path.relpath(patch, V),
-               (f'reported: {msg}' if rule == 'SV.1' else 'silent') if ok else f'UNEXPECTED exit {rc}: {msg}')
+               (f'reported: {msg}' if rule in ('SV.1', 'SV.3') else 'silent') if ok else f'UNEXPECTED exit {rc}: {msg}')
         if not ok:
             broken.append(f'{rule} {name}: exit {rc} ({msg})')
     if broken:
